@@ -280,8 +280,8 @@ theorem doneCodes_length (s : State) (r : Id) : (doneCodes s r).length = complet
     cases e <;> simp only [List.filterMap_cons, List.countP_cons] <;> try exact ih
     rename_i id c
     by_cases hid : (id == r) = true
-    · simp [hid, ih]
-    · simp [hid, ih]
+    · simp only [hid, if_true, List.length_cons, ih]
+    · simp only [hid, Bool.false_eq_true, if_false, ih]; omega
 
 theorem mem_doneCodes {s : State} {r : Id} {c : Nat} (h : c ∈ doneCodes s r) : Event.done r c ∈ s.events := by
   unfold doneCodes at h
